@@ -1179,6 +1179,31 @@ func (x *g) firstPacket(cid string) ([]byte, string) {
 			c[1] -= byte(1 + r.Intn(4))
 		}
 		return c, "connect-short-remlen"
+	case 6:
+		// bytes behind the last payload field, inside the remaining length
+		k := 1 + r.Intn(4)
+		if int(b[1])+k < 128 {
+			c := append([]byte{}, b...)
+			c[1] += byte(k)
+			for i := 0; i < k; i++ {
+				c = append(c, byte(r.Intn(256)))
+			}
+			return c, "connect-trailing-bytes"
+		}
+	case 7, 8:
+		// a string field that is not valid UTF-8, or contains U+0000
+		bad := []string{"\xff\xfeu", "u\xc3", "\xed\xa0\x80"}[r.Intn(3)]
+		kind := "connect-string-not-utf8"
+		if r.Bool(1, 2) {
+			bad, kind = []string{"u\x00x", "\x00", "c11/\x00w"}[r.Intn(3)], "connect-string-with-nul"
+		}
+		q := *p
+		if q.WillFlag && r.Bool(1, 2) {
+			q.WillTopic = "c11/" + bad
+		} else {
+			q.HasUser, q.User = true, bad
+		}
+		return refmqtt.Encode(&q), kind
 	}
 	return b, kind
 }
